@@ -1,6 +1,10 @@
 package formula
 
-import "context"
+import (
+	"context"
+
+	"github.com/ericlagergren/decimal"
+)
 
 func init() {
 	vpHarnesses["VP_C20_runner"] = VP_C20_runner
@@ -8,6 +12,20 @@ func init() {
 
 // model: a plain data map (possibly absent) plus a separate key-value store
 type vpSkip struct{}
+
+// vpFails: the evaluation must fail with an error.
+type vpFails struct{}
+
+// vpHalf{n} is the number n/2 (a fractional local).
+type vpHalf struct{ n int }
+
+func vpSameC20(got, want interface{}) bool {
+	if h, ok := want.(vpHalf); ok {
+		g, ok := got.(*decimal.Big)
+		return ok && vpBigEq(g, false, uint64(h.n*5), -1)
+	}
+	return vpSameRef(got, want)
+}
 
 type vpRunnerModel struct {
 	this  map[string]interface{}
@@ -42,6 +60,14 @@ func vpC20Formula(i int) Expression {
 		return vpBin(SK_Equals, vpId("$y"), vpId("$x"))
 	case 11:
 		return vpId("$y")
+	case 12:
+		return vpBin(SK_Equals, vpId("$z"), vpLit(SK_NumberLiteral, "2.5"))
+	case 13:
+		return &CallExpression{Expression: vpId("round"), Arguments: vpList(vpId("$z"))}
+	case 14:
+		return vpId("$z")
+	case 15:
+		return vpBin(SK_Equals, vpId("$x"), &CallExpression{Expression: vpId("nofn"), Arguments: vpList()})
 	}
 	return vpBin(SK_Comma, vpBin(SK_Equals, vpId("$x"), vpNumLit(2)), vpId("$x"))
 }
@@ -102,6 +128,18 @@ func (m *vpRunnerModel) eval(i int) interface{} {
 		return v
 	case 11:
 		return m.get("$y")
+	case 12:
+		m.set("$z", vpHalf{5})
+		return vpHalf{5}
+	case 13:
+		if _, ok := m.get("$z").(vpHalf); ok {
+			return 3
+		}
+		return vpSkip{} // round of a missing local: not this property's subject
+	case 14:
+		return m.get("$z")
+	case 15:
+		return vpFails{} // calling a missing name is an error; the state is unchanged
 	}
 	m.set("$x", 2)
 	return 2
@@ -113,15 +151,20 @@ func VP_C20_runner() {
 	ctx := context.Background()
 	r := NewRunner()
 	m := &vpRunnerModel{store: map[string]interface{}{}}
+	// a map object the caller keeps and may hand to SetThis again (the model keeps its twin)
+	kept := map[string]interface{}{"a": 0}
+	keptModel := map[string]interface{}{"a": 0}
 	if vpBool("startWithMap") {
-		init := map[string]interface{}{"a": 0}
-		r.SetThis(init)
-		m.this, m.has = map[string]interface{}{"a": 0}, true
+		r.SetThis(kept)
+		m.this, m.has = keptModel, true
 	}
 	for step := 0; step < N; step++ {
 		switch vpChoice("op", 5) {
 		case 0: // replace the data map
-			switch vpChoice("map", 4) {
+			switch vpChoice("map", 5) {
+			case 4:
+				r.SetThis(kept)
+				m.this, m.has = keptModel, true
 			case 0:
 				r.SetThis(nil)
 				m.this, m.has = nil, false
@@ -142,15 +185,19 @@ func VP_C20_runner() {
 			r.SetThisValue(k, v)
 			m.set(k, v)
 		case 2: // evaluate a formula
-			fi := vpChoice("f", 12)
+			fi := vpChoice("f", 16)
 			got, err := r.resolve(ctx, vpC20Formula(fi))
 			want := m.eval(fi)
 			if _, skip := want.(vpSkip); skip {
 				continue
 			}
+			if _, fails := want.(vpFails); fails {
+				vpAssert("C20/runner/failing-evaluation-is-an-error", err != nil)
+				continue
+			}
 			vpAssert("C20/runner/evaluation-no-error", err == nil)
 			if err == nil {
-				vpAssert("C20/runner/evaluation-equals-model", vpSameRef(got, want))
+				vpAssert("C20/runner/evaluation-equals-model", vpSameC20(got, want))
 			}
 		case 3: // auxiliary store
 			k := vpC20Keys[vpChoice("key", 3)]
